@@ -25,7 +25,7 @@ type sigSpec struct {
 	Locked  bool
 	State   string
 	Members int
-	PathID  int // signatures with the same non-zero PathID share their source paths (equal stacks when frames and arguments agree)
+	PathID  int    // signatures with the same non-zero PathID share their source paths (equal stacks when frames and arguments agree)
 	Creator string // "": no "created by"; otherwise the creator function
 }
 
